@@ -6,6 +6,7 @@ mod c07;
 mod c09;
 mod tracegen;
 mod c17;
+mod c18;
 mod probe;
 mod viewgen;
 mod c10;
@@ -51,6 +52,7 @@ fn main() {
         "C01" | "C03" => c01::run(&mut ctx),
         "C02" | "C12" => c02::run(&mut ctx),
         "C17" => c17::run(&mut ctx),
+        "C18" => c18::run(&mut ctx),
         "C06" => c06::run(&mut ctx),
         "C07" => c07::run(&mut ctx),
         "C09" => c09::run(&mut ctx),
